@@ -228,6 +228,12 @@ impl CanonicalRequest {
     proof {
         assert(auth_header_params(pieces, pieces.len() as int) == Some(m));
     }
+//@ before 1 `if !missing_messages.is_empty() {`
+    proof {
+        // the date that is authenticated: the first X-Amz-Date header if there is one, else the first Date header (C19)
+        assert((timestamp_str is Some) == (self.header_date() is Some));
+        assert(timestamp_str is Some ==> timestamp_str->Some_0@ == latin1(self.header_date()->Some_0)); //# C19 C02 name=first_x_amz_date_preferred_to_date
+    }
 //@ before 1 `signed_headers.sort();`
     proof {
         if m.contains_key(K_SIGNED_HEADERS()) {
